@@ -227,6 +227,31 @@ def _clauses(ck, repo):
         ck.ob(f"{meth}: every {ext_cls} is checked against a target of kind {tgt_cls}", ok, m, c or m.node, construct=f"glue:ext:{meth}")
         ext = [x for x in mv.calls("extend") if unparse(x.func.value) == "errors" and unparse(x.args[0]) == "ext_errors"]
         ck.ob(f"{meth}: target errors are kept", len(ext) == 1, m, m.node, construct=f"glue:ext:{meth}:kept")
+    # type equality used by the conformance clauses keeps list and non-null apart
+    for rel, cname in (("tartiflette/types/list.py", "GraphQLList"), ("tartiflette/types/non_null.py", "GraphQLNonNull")):
+        c = repo.cls(rel, cname)
+        eq = repo.find_method(c, "__eq__")
+        txt = unparse(eq.node) if eq is not None else ""
+        own = eq is not None and eq.cls is c and f"isinstance({eq.positional_params[1]}, {cname})" in txt and f"self.gql_type == {eq.positional_params[1]}.gql_type" in txt
+        same_class = eq is not None and ("type(self) is type(" in txt or "self.__class__ is" in txt) and "gql_type" in txt
+        ck.ob(f"{cname}.__eq__ compares wrappers of its own kind only (so `[T]` never equals `T!` in the interface-conformance clauses)", own or same_class, eq, eq.node if eq else c.node,
+              where=rel, construct=f"type-eq:{cname}", detail="the conformance clauses compare field and argument types with == / !=")
+    # a swallowed per-type failure must not end the scan of the remaining types
+    for m in sorted(sc.methods.values(), key=lambda m: m.name):
+        if not m.name.startswith("_validate") or m.positional_params != ["self"]:
+            continue
+        mv = FuncView(m)
+        for h in mv.handlers():
+            if any(isinstance(x, ast.Raise) for x in ast.walk(h)):
+                continue
+            tr = mv.parent(h)
+            loops_inside = [l for s_ in tr.body for l in ast.walk(s_) if isinstance(l, ast.For) and ("self." in unparse(l.iter))]
+            inside_loop = [l for l in mv.enclosing_loops(tr) if isinstance(l, ast.For)]
+            appends = any(isinstance(x, ast.Call) and callee_last(x) == "append" for x in ast.walk(h))
+            ok = appends or not [l for l in loops_inside if "type_definitions" in unparse(l.iter) or "_directive_definitions" in unparse(l.iter) or "extensions" in unparse(l.iter)]
+            ck.ob(f"{m.name}: the handler `except {unparse(h.type) if h.type else ''}` isolates one candidate (its try is inside the scan loop, not around it)", ok, m, tr,
+                  construct=f"isolation:{m.name}:{unparse(h.type) if h.type else 'bare'}",
+                  detail="hoisting the try around the loop makes the first candidate without the attribute end the whole scan: later types are never checked")
     vu = _find_func(repo, "_value_uniqueness")
     vv = FuncView(vu)
     ap = [c for c in vv.calls("append") if unparse(c.func.value) == "double"]
